@@ -444,7 +444,9 @@ class MsgProfile(Profile):
             from .harness import CLOCK
             when = self._jump_target(w)
             if when is not None and when > CLOCK.now:
-                CLOCK.now = when
+                # just past the deadline (timers test `now > timeout`;
+                # virtual time does not move on ticks)
+                CLOCK.now = when + 0.001
         elif kind == 'deliver':
             _, jk, i = ev
             jk = tuple(jk)
